@@ -17,7 +17,7 @@ Per obligation (see smt_obligations.py):
 """
 import os, re, subprocess, sys, time, json, hashlib, shutil
 
-WIDTH = {"u8": 8, "u16": 16, "u32": 32, "u64": 64, "usize": 64, "i8": 8, "i16": 16, "i32": 32, "i64": 64, "isize": 64}
+WIDTH = {"u8": 8, "u16": 16, "u32": 32, "u64": 64, "u128": 128, "usize": 64, "i8": 8, "i16": 16, "i32": 32, "i64": 64, "isize": 64}
 
 
 class Unsupported(Exception):
@@ -261,6 +261,8 @@ class Exec:
                 line = line.rstrip(";")
                 if line.startswith(("StorageLive", "StorageDead", "nop", "FakeRead", "PlaceMention", "Retag")):
                     continue
+                if result is not None and result in self.env:
+                    return self.env[result]  # kernel finished; what follows wraps/converts the value
                 if line == "return":
                     return self.env["_0"]
                 m = re.match(r"^goto -> (bb\d+)$", line)
